@@ -71,6 +71,9 @@ func truncate(s *slip.Scope, f slip.Object, args slip.List, depth int) slip.Valu
 	zeroDivisorCheck(s, depth, "truncate", args, div)
 	switch tn := num.(type) {
 	case slip.Fixnum:
+		if q, r = fixnumQuoOverflow(tn, div.(slip.Fixnum)); q != nil {
+			break
+		}
 		q = tn / div.(slip.Fixnum)
 		r = tn - q.(slip.Fixnum)*div.(slip.Fixnum)
 	case slip.SingleFloat:
